@@ -113,13 +113,15 @@ class Ctx:
         path = os.path.join(d, h + ".json")
         with open(path, "w") as f:
             f.write(blob + "\n")
-        if len(self.violations) < 20:
+        if len(self.violations) < 400:
             self.violations.append((signature, path, no_input))
 
     def finish(self):
         wall = time.time() - self.t0
         for k in self.known_hits:
             print("KNOWN-FINDING: property=%s %s" % (self.prop, k["description"]), flush=True)
+        # at most 20 lines, those with a failing input first
+        self.violations = sorted(self.violations, key=lambda v: v[2])[:20]
         for sig, path, no_input in self.violations:
             tail = " no-failing-input-found" if no_input else ""
             print("VIOLATION property=%s replay=%s%s" % (self.prop, path, tail), flush=True)
